@@ -60,7 +60,7 @@ const PKM: &str = r##"{"domain":{"ed25519:1":"XGX0JRS2Af3be3knz2fBiRbApjm2Dh61gX
 const HTML1: &str = r##"<mx-reply><blockquote><a href="https://matrix.to/#/!n8f893n9:example.com/$1598361704261elfgc:localhost">In reply to</a> <a href="https://matrix.to/#/@alice:example.com">@alice:example.com</a><br>Previous message</blockquote></mx-reply><h1 id="t">Title</h1><p>This <em>is</em> <span data-mx-color="#ff0000" data-mx-spoiler="r">a</span> <a href="javascript:x" target="_blank">link</a> <img src="mxc://a/b" alt="i" width="1"><font color="red">f</font><code class="language-rust x">c</code></p><ol start="3"><li>i</li></ol><table><tr><td>c</td></tr></table><script>alert(1)</script><del>d</del><strike>s</strike>"##;
 
 /// elements whose attributes the typed view (`to_matrix`) parses: non-ASCII and boundary values
-const HTML_TYPED: &str = "<pre><code class=\"a language-\u{e9}\u{1F980} rust\tx\">c</code></pre><h7>h</h7><h1>h</h1><ol start=\"-3\"><li>i</li></ol><ol start=\"99999999999999999999\"></ol><a href=\"matrix:u/\u{e9}:x?action=\u{e9}\" target=\"\u{e9}\">l</a><a href=\"https://matrix.to/#/%F0%9F\">m</a><span data-mx-color=\"\u{e9}\" data-mx-bg-color=\"#\u{1F980}\" data-mx-spoiler=\"\u{e9} \" data-mx-maths=\"\u{e9}\">s</span><img src=\"mxc://\u{e9}/\u{1F980}\" width=\"\u{e9}\" height=\"-1\" alt=\"\u{e9}\" title=\"\u{1F980}\"><div data-mx-maths=\"\u{e9}\" class=\"\u{e9}\">d</div>";
+const HTML_TYPED: &str = "<pre><code class=\"a language-\u{e9}\u{1F980} rust\tx\">c</code><code class=\"language-\u{e9}\u{1F980} language-rust\">d</code></pre><h7>h</h7><h1>h</h1><ol start=\"-3\"><li>i</li></ol><ol start=\"99999999999999999999\"></ol><a href=\"matrix:u/\u{e9}:x?action=\u{e9}\" target=\"\u{e9}\">l</a><a href=\"https://matrix.to/#/%F0%9F\">m</a><span data-mx-color=\"\u{e9}\" data-mx-bg-color=\"#\u{1F980}\" data-mx-spoiler=\"\u{e9} \" data-mx-maths=\"\u{e9}\">s</span><img src=\"mxc://\u{e9}/\u{1F980}\" width=\"\u{e9}\" height=\"-1\" alt=\"\u{e9}\" title=\"\u{1F980}\"><div data-mx-maths=\"\u{e9}\" class=\"\u{e9}\">d</div>";
 
 const DER_V1: &[u8] = &[
     0x30, 0x2e, 0x02, 0x01, 0x00, 0x30, 0x05, 0x06, 0x03, 0x2b, 0x65, 0x70, 0x04, 0x22, 0x04, 0x20, 1, 8, 15, 22, 29,
